@@ -96,7 +96,8 @@ Matches(w, e)   == \/ w = "OTHERS" /\ Catchable(e)
 \* sig   : "" | "brk" | "cont" | "ret" | "err"      err : error record     rv : returned value
 \* cerr  : error being handled (for error@1/@2)
 NoFrame == [x \in {} |-> VNil]
-State0  == [vars |-> NoFrame, funcs |-> <<>>, out |-> "", depth |-> 0,
+\* inloop: number of loops of the current frame that are running (break/continue outside a loop do nothing)
+State0  == [vars |-> NoFrame, funcs |-> <<>>, out |-> "", depth |-> 0, inloop |-> 0,
             sig |-> "", err |-> NoErr, rv |-> VNil, hasrv |-> FALSE, cerr |-> NoErr]
 
 SetVar(S, n, v) == [S EXCEPT !.vars = [x \in (DOMAIN S.vars) \cup {n} |-> IF x = n THEN v ELSE S.vars[x]]]
@@ -197,6 +198,13 @@ SeqInsert(s, i, x) == SubSeq(s, 1, i) \o <<x>> \o SubSeq(s, i + 1, Len(s))      
 SeqDelete(s, i)    == SubSeq(s, 1, i) \o SubSeq(s, i + 2, Len(s))              \* delete 0-based position i
 SeqPut(s, i, x)    == [s EXCEPT ![i + 1] = x]
 Rep(n, x)          == [i \in 1..n |-> x]
+
+\* Symbolic 64-bit boundary constants.  The ideal layer computes with mathematical integers, so a
+\* program that never overflows behaves the same whether INT64_MAX is 2^63-1 or the stand-in BigM:
+\* generators use [k |-> "bigc", base, off] only in positions where that holds (loop bounds, and
+\* differences of two such constants).  Rendered as the real 64-bit literal.
+BigM == 500000000
+BigVal(e) == IF e.base = "MAX" THEN BigM + e.off ELSE (-BigM - 1) + e.off
 
 (* ------------------------------ evaluation ---------------------------- *)
 RECURSIVE Eval(_, _), EvalArgs(_, _, _), ExecList(_, _), Exec(_, _), WhileLoop(_, _, _),
@@ -337,15 +345,16 @@ CallUser(e, S, vs) ==
     LET f  == S.funcs[fi]
         S1 == [S EXCEPT !.vars = [x \in {f.ps[i] : i \in DOMAIN f.ps} |->
                                     vs[CHOOSE i \in DOMAIN f.ps : f.ps[i] = x]],
-                        !.depth = @ + 1, !.rv = VNil, !.hasrv = FALSE, !.cerr = NoErr]
+                        !.depth = @ + 1, !.rv = VNil, !.hasrv = FALSE, !.cerr = NoErr, !.inloop = 0]
         S2 == ExecList(f.b, S1)
-        back == [S2 EXCEPT !.vars = S.vars, !.depth = S.depth, !.rv = S.rv, !.hasrv = S.hasrv, !.cerr = S.cerr]
+        back == [S2 EXCEPT !.vars = S.vars, !.depth = S.depth, !.rv = S.rv, !.hasrv = S.hasrv, !.cerr = S.cerr, !.inloop = S.inloop]
     IN  IF Failed(S2) THEN [S |-> back, v |-> VNil]
         ELSE R([back EXCEPT !.sig = ""], IF S2.sig = "ret" /\ S2.hasrv THEN S2.rv ELSE VNil)
 
 Eval(e, S) ==
   CASE e.k = "lit"  -> R(S, e.v)
     [] e.k = "null" -> R(S, VNil)
+    [] e.k = "bigc" -> R(S, VInt(BigVal(e)))
     [] e.k = "var"  -> IF e.n \in DOMAIN S.vars THEN R(S, S.vars[e.n]) ELSE RE(S, EOther("undefined"))
     [] e.k = "paren" -> Eval(e.a, S)
     [] e.k = "un" ->
@@ -459,7 +468,7 @@ Exec(s, S) ==
                   Cat[i \in 0..Len(ra.vs)] == IF i = 0 THEN "" ELSE Cat[i - 1] \o Txt(ra.vs[i])
               IN  [ra.S EXCEPT !.out = @ \o Cat[Len(ra.vs)] \o (IF s.k = "print" THEN "\n" ELSE "")]
     [] s.k = "if" -> IfChain(s.cs, s.el, S)
-    [] s.k = "while" -> WhileLoop(s, S, Fuel)
+    [] s.k = "while" -> [WhileLoop(s, [S EXCEPT !.inloop = @ + 1], Fuel) EXCEPT !.inloop = S.inloop]
     [] s.k = "for" ->
          LET ra == Eval(s.a, S) IN
          IF Failed(ra.S) THEN ra.S ELSE
@@ -472,9 +481,9 @@ Exec(s, S) ==
          ELSE IF rs.v.v < 1 THEN Raise(rs.S, ERange)
          ELSE LET a == ra.v.v  b == rb.v.v  st == rs.v.v IN
               IF b > a THEN IF s.dir = "desc" THEN rs.S
-                            ELSE ForLoop(s, SetVar(rs.S, s.n, VInt(a)), a, b, st, Fuel)
+                            ELSE [ForLoop(s, [SetVar(rs.S, s.n, VInt(a)) EXCEPT !.inloop = @ + 1], a, b, st, Fuel) EXCEPT !.inloop = S.inloop]
               ELSE IF s.dir = "asc" /\ a # b THEN rs.S
-                   ELSE ForLoop(s, SetVar(rs.S, s.n, VInt(a)), b, a, -st, Fuel)
+                   ELSE [ForLoop(s, [SetVar(rs.S, s.n, VInt(a)) EXCEPT !.inloop = @ + 1], b, a, -st, Fuel) EXCEPT !.inloop = S.inloop]
     [] s.k = "forall" ->
          LET pl == IsPlace(s.t)
              rt == IF pl THEN LoadPath(s.t, S) ELSE Eval(s.t, S) IN
@@ -483,11 +492,11 @@ Exec(s, S) ==
          ELSE IF rt.v.t # "tab" THEN Raise(rt.S, EOther("wide"))
          ELSE LET n == Len(rt.v.v)
                   idxs == IF s.dir = "desc" THEN [i \in 1..n |-> n + 1 - i] ELSE [i \in 1..n |-> i]
-                  S2 == ForallLoop([s EXCEPT !.tv = rt.v], rt.S, idxs, pl, Fuel)
+                  S2 == [ForallLoop([s EXCEPT !.tv = rt.v], [rt.S EXCEPT !.inloop = @ + 1], idxs, pl, Fuel) EXCEPT !.inloop = S.inloop]
               IN  \* after the loop the iterator variable is empty (null)
                   IF n = 0 \/ Failed(S2) THEN S2 ELSE SetVar(S2, s.n, VNull(ElemType(rt.v.ty)))
-    [] s.k = "break" -> [S EXCEPT !.sig = "brk"]
-    [] s.k = "continue" -> [S EXCEPT !.sig = "cont"]
+    [] s.k = "break" -> IF S.inloop > 0 THEN [S EXCEPT !.sig = "brk"] ELSE S
+    [] s.k = "continue" -> IF S.inloop > 0 THEN [S EXCEPT !.sig = "cont"] ELSE S
     [] s.k = "return" ->
          IF s.e.k = "none" THEN [S EXCEPT !.sig = "ret", !.hasrv = FALSE]
          ELSE LET r == Eval(s.e, S) IN
@@ -508,6 +517,18 @@ Exec(s, S) ==
 RunProgram(prog, S) ==
   LET S1 == ExecList(prog, [S EXCEPT !.sig = "", !.err = NoErr, !.rv = VNil, !.hasrv = FALSE, !.out = ""]) IN
   IF S1.sig \in {"brk", "cont"} THEN [S1 EXCEPT !.sig = ""] ELSE S1
+
+\* Statement-at-a-time execution (bloc -i, and the Context.h recipe): every top-level statement is
+\* compiled and run on its own; an error is reported and the next statement still runs; a top-level
+\* return only yields a value.  Result: final state with .out accumulated, .first = first error (or NoErr).
+RECURSIVE StepwiseFrom(_, _, _)
+StepwiseFrom(prog, S, first) ==
+  IF prog = <<>> THEN [S |-> S, first |-> first]
+  ELSE LET S1 == Exec(Head(prog), [S EXCEPT !.sig = "", !.err = NoErr])
+           f1 == IF first.kind = "" /\ S1.sig = "err" THEN S1.err ELSE first
+       IN  StepwiseFrom(Tail(prog), [S1 EXCEPT !.sig = "", !.err = NoErr], f1)
+RunStepwise(prog, S) ==
+  StepwiseFrom(prog, [S EXCEPT !.sig = "", !.err = NoErr, !.rv = VNil, !.hasrv = FALSE, !.out = ""], NoErr)
 
 (* ------------------------------- rendering ---------------------------- *)
 RECURSIVE RE_(_), RArgs(_), RS(_), RList(_), RHandlers(_), RIfs(_, _)
@@ -537,11 +558,13 @@ RArgs(es) == Join([i \in DOMAIN es |-> RE_(es[i])], ", ")
 RE_(e) ==
   CASE e.k = "lit"  -> RLit(e.v)
     [] e.k = "null" -> "null"
+    [] e.k = "bigc" -> IF e.base = "MAX" THEN "(9223372036854775807 - " \o ToString(-e.off) \o ")"
+                       ELSE "((-9223372036854775807) - 1 + " \o ToString(e.off) \o ")"
     [] e.k = "var"  -> e.n
     [] e.k = "paren" -> "(" \o RE_(e.a) \o ")"
     [] e.k = "un"   -> "(" \o e.op \o " " \o RE_(e.a) \o ")"
     [] e.k = "bin"  -> "(" \o RE_(e.a) \o " " \o e.op \o " " \o RE_(e.b) \o ")"
-    [] e.k = "call" -> e.f \o "(" \o RArgs(e.as) \o ")"
+    [] e.k = "call" -> IF e.f = "error" THEN "error" ELSE e.f \o "(" \o RArgs(e.as) \o ")"
     [] e.k = "ucall" -> e.f \o "(" \o RArgs(e.as) \o ")"
     [] e.k = "mem"  -> RE_(e.r) \o "." \o (IF e.m = "set" THEN "set@" \o ToString(e.i) ELSE e.m) \o "(" \o RArgs(e.as) \o ")"
     [] e.k = "item" -> RE_(e.a) \o "@" \o ToString(e.i)
@@ -586,6 +609,7 @@ D(h)            == Lit(VDec(h))
 Str(s)          == Lit(VStr(s))
 B(b)            == Lit(VBool(b))
 NullC           == [k |-> "null"]
+BigC(base, off) == [k |-> "bigc", base |-> base, off |-> off]
 V(n)            == [k |-> "var", n |-> n]
 Bin(op, a, b)   == [k |-> "bin", op |-> op, a |-> a, b |-> b]
 Un(op, a)       == [k |-> "un", op |-> op, a |-> a]
